@@ -192,7 +192,10 @@ class LiteralEvaluator:
 			else:
 				return float(arguments[0])
 		elif org_calls == 'str':
-			return f'"{str(arguments[0])}"'
+			if isinstance(arguments[0], str):
+				return f'"{arguments[0][1:-1]}"'
+			else:
+				return f'"{str(arguments[0])}"'
 
 		raise Errors.OperationNotAllowed(node, calls, arguments)
 
